@@ -131,6 +131,9 @@ class ModuleInfo:
             self.tree = ast.parse(text)
         except SyntaxError as e:
             raise AnalysisError('cannot parse %s: %s' % (path, e))
+        if name == 'yatiml' or name.startswith('yatiml.'):
+            from .normalize import normalize
+            self.tree = normalize(self.tree)
         self.sha256 = hashlib.sha256(text.encode()).hexdigest()
         self.imports: Dict[str, str] = {}     # local name -> dotted target
         self.star_imports: List[str] = []
